@@ -154,7 +154,7 @@ NAMING = [('__x', 'private-feature-name'), ('__secret_1', 'private-feature-name'
 def new_sdstats():
     return {'cases': 0, 'by_source': {}, 'by_style': {'static-meta': 0, 'static-decorator': 0, 'dynamic': 0},
             'classes_per_case': {}, 'features_per_class': {}, 'cases_meeting_theorem_premises': 0,
-            'with_opposites': 0, 'with_defaults': 0, 'with_diamond': 0, 'with_abstract': 0,
+            'with_opposites': 0, 'with_defaults': 0, 'with_diamond': 0, 'with_abstract': 0, 'class_flags': {},
             'body_cases': 0, 'body_python_raised': 0, 'body_entries': {}, 'naming_cases': 0, 'model_calls': 0,
             'behaviour_cases': 0, 'behaviour_calls': 0, 'behaviour_outcomes': {}}
 
@@ -173,13 +173,13 @@ def sd_real(D, deco, intern):
     try:
         mod = sd.execute(sd.source(D, deco), 'd' if deco else 'm')
         try:
-            rs = sd.reflect([mod.__dict__[c['name']].eClass for c in D['classes']], intern)
+            rs = sd.reflect([mod.__dict__[c['name']].eClass for c in D['classes']], intern, flags=True)
         finally:
             sd.forget(mod)
     except Exception as e:  # noqa
         rs = 'raised ' + type(e).__name__
     try:
-        rd = sd.reflect(sd.build_dynamic(D), intern)
+        rd = sd.reflect(sd.build_dynamic(D), intern, flags=True)
     except Exception as e:  # noqa
         rd = 'raised ' + type(e).__name__
     return rs, rd
@@ -198,9 +198,13 @@ def sd_count(st, D, source, wf):
     st['with_defaults'] += any(fd.get('default') is not None for c in D['classes'] for fd in c['features'])
     st['with_diamond'] += any(len(c['supers']) > 1 for c in D['classes'])
     st['with_abstract'] += any(c['abstract'] for c in D['classes'])
+    for c in D['classes']:
+        k = ('abstract' if c['abstract'] else 'concrete') + ('+interface' if c.get('interface') else '')
+        st['class_flags'][k] = st['class_flags'].get(k, 0) + 1
 
 
 def sd_compare(out, what, real, modelled, case):
+    real = sd.strip_flags(real)            # the model does not carry `interface`
     if real != modelled:
         bad = next((f'class {a["name"]}: real {a} vs model {b}' for a, b in zip(real, modelled or []) if a != b), None) \
             if isinstance(real, list) and isinstance(modelled, list) else None
@@ -302,6 +306,17 @@ def behave_case(ctx, out, st, scenario, D, history):
         for h, r in zip(history, tr['dynamic']):
             k = h[0] + ':' + (r['result'][0] if r['result'][0] == 'ok' else r['result'][1])
             st['behaviour_outcomes'][k] = st['behaviour_outcomes'].get(k, 0) + 1
+    for render in BEHAVE_RENDERS:
+        if isinstance(tr[render], str):
+            continue
+        for j, (h, r) in enumerate(zip(history, tr[render])):
+            if h[0] == 'xload' and r['result'][0] == 'ok' and r['result'][1][0] != r['result'][1][1]:
+                out.fail({'property': PID, 'clause': 'behaviour', 'scenario': scenario, 'culprit': 'cross-load', 'render': render},
+                         f'{scenario}: the document of a {D["classes"][h[1]]["name"]} saved by {render} loads differently: '
+                         f'static {str(r["result"][1][0])[:150]} vs dynamic {str(r["result"][1][1])[:150]}',
+                         {'scenario': scenario, 'seed': ctx.seed, 'tier': ctx.tier, 'behave': D,
+                          'history': [x for x in history[:j + 1] if x[1] == h[1]]})
+                break
     d = behave_first_difference(tr)
     if d is None:
         return
@@ -512,6 +527,11 @@ def replay(ctx, rep):
         for render in BEHAVE_RENDERS:
             t = tr[render]
             print(render, t if isinstance(t, str) else [r['result'] for r in t][-3:])
+        for render in BEHAVE_RENDERS:
+            for h, r in zip(case['history'], tr[render] if not isinstance(tr[render], str) else []):
+                if h[0] == 'xload' and r['result'][0] == 'ok' and r['result'][1][0] != r['result'][1][1]:
+                    print('REPRODUCED cross-load', render, h, str(r['result'][1])[:300])
+                    return 1
         if d is not None:
             print('REPRODUCED', d[0], 'step', case['history'][d[1]] if d[1] is not None else 'construct', ':', str(d[2])[:200], 'vs', str(d[3])[:200])
             return 1
